@@ -1,2 +1,61 @@
-(* C01 — placeholder until the round-trip lemmas are in place; the file is extended as proofs land. *)
-From EDP Require Import Base.Bytes Term.Term Codec.Encode Codec.Decode.
+(* C01 — encode/decode round trip preserves the Erlang value of every term.
+   cfg is any decoder configuration whose arm table is the generated owned table; kc/ki are the key order and
+   BTreeMap insertion the decoder uses (the round trip does not depend on their laws: for maps it asks, per map,
+   that re-inserting the normalised entries reproduces them — `rt_ok`, decidable by evaluation, whose failures are
+   exactly the recorded C01 map findings). *)
+From EDP Require Import Base.Bytes Term.Term Term.Value Gen.Tags Gen.DecoderArms.
+From EDP Require Import Codec.Encode Codec.Decode Codec.Norm Codec.RoundTrip Codec.RoundTrip2.
+
+(* 1. parse (enc t ++ rest) = norm t, rest — all 17 variants, arbitrary nesting, any fuel above the encoding's length *)
+Theorem C01_roundtrip_parse : forall cfg, d_arms cfg = owned_arms ->
+  forall t, wf t = true -> rt_ok (d_kcmp cfg) (d_kinsert cfg) t ->
+  exists b, enc t = EOk b /\ (0 < length b)%nat /\
+    forall f rest, (length b < f)%nat -> parse cfg f (b ++ rest) = POk (norm t) rest.
+Proof. intros cfg Harms t. exact (roundtrip cfg Harms (d_kcmp cfg) (d_kinsert cfg) eq_refl eq_refl t). Qed.
+
+(* 2. the public entry points: decode (encode t) = norm t *)
+Theorem C01_decode_encode : forall cfg, d_arms cfg = owned_arms ->
+  forall t, wf t = true -> rt_ok (d_kcmp cfg) (d_kinsert cfg) t ->
+  exists bs, encode t = EOk bs /\ decode cfg bs = DOk (norm t).
+Proof.
+  intros cfg Harms t Hwf Hok.
+  destruct (roundtrip cfg Harms (d_kcmp cfg) (d_kinsert cfg) eq_refl eq_refl t Hwf Hok) as (b & Eb & Lb & Pb).
+  exists (tag_version :: b). unfold encode. rewrite Eb. split; [reflexivity|].
+  unfold decode. rewrite N.eqb_refl.
+  specialize (Pb (length b + 2 + d_extra_fuel cfg)%nat [] ltac:(lia)). rewrite app_nil_r in Pb. now rewrite Pb.
+Qed.
+
+(* 3. encoding the decoded term again reproduces the same bytes — for every term, no side condition *)
+Theorem C01_reencode_same_bytes : forall t, encode (norm t) = encode t.
+Proof. intros t. unfold encode. now rewrite enc_norm. Qed.
+
+(* 4. the decoded term denotes the same Erlang value *)
+Theorem C01_same_value : forall t, wf t = true -> denote (norm t) = denote t.
+Proof. exact denote_norm. Qed.
+
+(* the recorded finding C01-fun-old-index, as a refutation of the statement without the `old_index < 2^31` condition *)
+Theorem C01_refuted_fun_old_index : exists cfg t, d_arms cfg = owned_arms /\ wf t = true /\
+  exists bs, encode t = EOk bs /\ decode cfg bs = DErr KTag.
+Proof.
+  exists {| d_arms := owned_arms; d_cache := []; d_inflate := fun _ => None; d_float_text := fun _ => None;
+            d_kcmp := fun _ _ => Eq; d_kinsert := fun _ k v m => m ++ [(k, v)]; d_extra_fuel := 0 |}.
+  exists (TIntFun 0 (repeat 0 16) 0 0 [109] 2147483648 5 {| pnode := [110]; pnum := 1; pserial := 2; pcreation := 3; ploc := None |} []).
+  split; [reflexivity|]. split; [vm_compute; reflexivity|].
+  eexists. split; [vm_compute; reflexivity|]. vm_compute. reflexivity.
+Qed.
+
+(* non-vacuity: a nested term with every kind of node satisfies the hypotheses (with the real key order this is
+   checked by the correspondence run; here a trivial append-order stands in for it) *)
+Example C01_example :
+  let cfg := {| d_arms := owned_arms; d_cache := []; d_inflate := fun _ => None; d_float_text := fun _ => None;
+                d_kcmp := fun _ _ => Eq; d_kinsert := fun _ k v m => m ++ [(k, v)]; d_extra_fuel := 0 |} in
+  let t := TTuple [TAtom [111; 107]; TInt (-5); TInt 4294967298; TList [TFloat 4607182418800017408; TBin [1; 2]];
+                   TImproper [TInt 1] (TAtom [116]); TMap [(TInt 1, TStr [104; 105])]; TBig true [1; 0; 0; 0; 0; 0; 0; 0; 1];
+                   TPid {| pnode := [110]; pnum := 1; pserial := 2; pcreation := 3; ploc := None |}; TBitBin [160] 3; TNil] in
+  wf t = true /\ exists bs, encode t = EOk bs /\ decode cfg bs = DOk (norm t).
+Proof. split; [vm_compute; reflexivity|]. eexists. split; [vm_compute; reflexivity|]. vm_compute. reflexivity. Qed.
+
+Check C01_decode_encode : forall cfg, d_arms cfg = owned_arms ->
+  forall t, wf t = true -> rt_ok (d_kcmp cfg) (d_kinsert cfg) t ->
+  exists bs, encode t = EOk bs /\ decode cfg bs = DOk (norm t).
+Check C01_reencode_same_bytes : forall t, encode (norm t) = encode t.
